@@ -1,16 +1,17 @@
-\* generated by the builder of C02/C08; see MCSearchers.tla for the families
+\* generated with the builder script of C02/C08; families: MCSearchers.tla
 SPECIFICATION Spec
 CONSTANTS
-  SegSizes <- Segs22
-  Deleted = {1}
+  SegSizes <- Segs21
+  Deleted = {}
   OneHitEnc = TRUE
   ScoreNone = TRUE
   HeapTakeover = 10
   MaxCalls = 0
   NTerms = 3
-  Queries <- QFlatNoK1
+  Family = "deepq"
+  DropK1 = TRUE
+  Queries <- MCQueries
   FirstAdvanceOK <- FirstAdvNoQ2
 VIEW View
 INVARIANT EnumIsHits
-INVARIANT NoneEqualsScored
 CHECK_DEADLOCK FALSE
